@@ -35,6 +35,7 @@ Proved for ALL inputs (no size bound):
 -/
 import Apko.Proofs.Lemmas.Lock
 import Apko.Proofs.Lemmas.RelockInv
+import Apko.Proofs.Lemmas.RelockTop
 import Apko.Generated.Lock
 import Apko.Generated.Version
 
@@ -994,6 +995,50 @@ theorem relock_fixpoint_partial_lockOf (c : Cfg) (w : List Text) (S : List Pkg) 
           · exact ih hxs h1' h2'
     exact key S hd hp hq
 
+/-! ### the re-resolution succeeds (lemmas in Proofs/Lemmas/RelockSucc.lean and RelockTop.lean) -/
+
+theorem head_ne_bang_of {e : Text} (h : ¬ e.head? = some '!') : ∀ x, e ≠ '!' :: x := by
+  intro x hx; rw [hx] at h; exact h rfl
+
+/-- the success half of the full statement: the lock of every resolution re-resolves.  FALSE on the pinned tree
+(`not_RelockSucceeds`; one witness per side condition of `relock_succeeds_partial` below). -/
+def RelockSucceeds : Prop :=
+  ∀ (c : Cfg) (w : List Text) (r : Resolution), resolve c w [] = .ok r → ∃ r', resolve c (lockOf w r.install) [] = .ok r'
+
+theorem lockList_of_pinned {S : List Pkg} {L : List Text} (h : PinnedLock S L) : LockList S L :=
+  ⟨fun e he => ⟨(h.sound e he).1, by
+      obtain ⟨_, p, hp, pin, hparse, _⟩ := h.sound e he
+      exact ⟨p, hp, pin, hparse⟩⟩, h.complete⟩
+
+/-- T `relock_succeeds_partial`: in a universe without `provides` / `install_if` (the territory of
+`relock_fixpoint_partial`), the re-resolution of a lock `L` of a set `S` SUCCEEDS when
+* `ctx`    `S` is a closed set of universe packages (C02 `Valid`: every dependency of a member is satisfied by a member),
+* `sd.names` one member per name (C02 `Valid`),  `sd.ids` package ids are distinct (model well-formedness),
+* `huniq`  (name, version) of a member is unique across the repositories          — not F09d,
+* `sd.pvOk` every member's version parses                                          — not F09e,
+* `hL`     every member has its entry `name=version(@pin)` and the entry of a member that comes from a pinned
+           repository carries that pin                                             — not F09a,
+* `sd.noConf` no `!x` dependency of a member is violated by a member               — not F09f (conflict clause),
+* `sd.depPv`  the version text of every dependency parses (restricts only operator runs that are no operator,
+           `b==x`; needed: `depAnyJunk_witness`).
+For any number of packages, versions, indexes (pinned or not), dependency shapes and any order of the lock.
+Proof: `constrain` leaves every member free and disqualifies every other package of a locked name; the first loop
+puts every member into `existing`; in `getPackageDependencies` no dependency of a member fails (the member that
+satisfied it is selected, or is a candidate — a pinned one through `existing`), `pick` never conflicts; never out of
+fuel by `C02.resolve_total`. -/
+theorem relock_succeeds_partial (c : Cfg) (S : List Pkg) (L : List Text) (ctx : Ctx c S) (sd : Side c S)
+    (huniq : ∀ x ∈ c.u.all, ∀ p ∈ S, x.name = p.name → versionMatches x.version p.version = true → x = p)
+    (hL : PinnedLock S L) : ∃ r', resolve c L [] = .ok r' :=
+  relock_ok ctx sd huniq hL
+
+/-- T `relock_exact_partial`: under the same hypotheses the lock is a fixpoint — the re-resolution succeeds AND
+returns exactly the locked set (`relock_succeeds_partial` + `relock_fixpoint_partial`). -/
+theorem relock_exact_partial (c : Cfg) (S : List Pkg) (L : List Text) (ctx : Ctx c S) (sd : Side c S)
+    (huniq : ∀ x ∈ c.u.all, ∀ p ∈ S, x.name = p.name → versionMatches x.version p.version = true → x = p)
+    (hL : PinnedLock S L) : ∃ r', resolve c L [] = .ok r' ∧ sameMembers r'.install S := by
+  obtain ⟨r', h⟩ := relock_succeeds_partial c S L ctx sd huniq hL
+  exact ⟨r', h, relock_fixpoint_partial c S L ctx sd.names huniq (lockList_of_pinned hL) r' h⟩
+
 /-! ### F09a: the full statement is false -/
 
 def pk (id : Nat) (n v pin : String) (d : List String) : Pkg :=
@@ -1054,6 +1099,180 @@ theorem not_RelockFixpoint : ¬ RelockFixpoint := by
   | err => rw [hr] at ho; cases ho
   | outOfFuel => rw [hr] at ho; cases ho
 
+theorem not_RelockSucceeds : ¬ RelockSucceeds := by
+  intro h
+  have ho := F09a_orig
+  cases hr : resolve cfgF wF [] with
+  | ok r =>
+    rw [hr] at ho
+    simp only [installOf, Option.some.injEq] at ho
+    obtain ⟨r', hr'⟩ := h cfgF wF r hr
+    rw [ho, F09a_lock.1] at hr'
+    have := F09a_relock
+    rw [hr'] at this
+    cases this
+  | err => rw [hr] at ho; cases ho
+  | outOfFuel => rw [hr] at ho; cases ho
+
+/-! ### every side condition of `relock_succeeds_partial` is needed: one kernel-checked witness each
+
+Each witness is a universe without provides / install_if, a world whose resolution `S` is valid, and the lock `unify`
+emits for it, such that ALL hypotheses of `relock_succeeds_partial` hold except the one named — and the lock does
+not re-resolve (F09d: re-resolves to another set). -/
+
+def hypNames (S : List Pkg) : Prop := ∀ p ∈ S, ∀ q ∈ S, p.name = q.name → p = q
+def hypPv (S : List Pkg) : Prop := ∀ p ∈ S, (pv p.version).isSome = true
+def hypDepPv (S : List Pkg) : Prop := ∀ p ∈ S, ∀ d ∈ p.deps, isConflict d = false →
+  (parseConstraint d).version = [] ∨ (pv (parseConstraint d).version).isSome = true
+def hypNoConf (S : List Pkg) : Prop := ∀ p ∈ S, ∀ d ∈ p.deps, isConflict d = true → ∀ q ∈ S, sat q (d.drop 1) = false
+def hypUniq (c : Cfg) (S : List Pkg) : Prop :=
+  ∀ x ∈ c.u.all, ∀ p ∈ S, x.name = p.name → versionMatches x.version p.version = true → x = p
+instance (S : List Pkg) : Decidable (hypNames S) := by unfold hypNames; infer_instance
+instance (S : List Pkg) : Decidable (hypPv S) := by unfold hypPv; infer_instance
+instance (S : List Pkg) : Decidable (hypDepPv S) := by unfold hypDepPv; infer_instance
+instance (S : List Pkg) : Decidable (hypNoConf S) := by unfold hypNoConf; infer_instance
+instance (c : Cfg) (S : List Pkg) : Decidable (hypUniq c S) := by unfold hypUniq; infer_instance
+
+theorem side_of (c : Cfg) (S : List Pkg) (h1 : C02.IdsDistinct c.u) (h2 : hypNames S) (h3 : hypPv S) (h4 : hypDepPv S)
+    (h5 : hypNoConf S) : Side c S := ⟨h1, h2, h3, h4, h5⟩
+
+/-- decidable form of `LockList` (`needPin = false`) / `PinnedLock` (`needPin = true`) for concrete locks -/
+def entryB (S : List Pkg) (needPin : Bool) (e : Text) : Bool :=
+  e.head? != some '!' && S.any fun p =>
+    decide (parseConstraint e = ⟨p.name, p.version, .eq, (parseConstraint e).pin⟩) &&
+      (!needPin || p.pin.isEmpty || decide (p.pin = (parseConstraint e).pin))
+def lockB (S : List Pkg) (L : List Text) (needPin : Bool) : Bool :=
+  L.all (entryB S needPin) && S.all fun p => L.any fun e =>
+    decide (parseConstraint e = ⟨p.name, p.version, .eq, (parseConstraint e).pin⟩)
+
+theorem pinnedLock_of_lockB {S : List Pkg} {L : List Text} (h : lockB S L true = true) : PinnedLock S L := by
+  simp only [lockB, Bool.and_eq_true, List.all_eq_true, List.any_eq_true, decide_eq_true_eq] at h
+  constructor
+  · intro e he
+    have := h.1 e he
+    simp only [entryB, Bool.and_eq_true, bne_iff_ne, ne_eq, List.any_eq_true, decide_eq_true_eq, Bool.not_true,
+      Bool.false_or, Bool.or_eq_true, List.isEmpty_iff] at this
+    obtain ⟨hb, p, hp, hparse, hpin⟩ := this
+    exact ⟨head_ne_bang_of hb, p, hp, _, hparse, hpin⟩
+  · intro p hp
+    obtain ⟨e, he, hparse⟩ := h.2 p hp
+    exact ⟨e, he, _, hparse⟩
+
+theorem lockList_of_lockB {S : List Pkg} {L : List Text} (h : lockB S L false = true) : LockList S L := by
+  simp only [lockB, Bool.and_eq_true, List.all_eq_true, List.any_eq_true, decide_eq_true_eq] at h
+  constructor
+  · intro e he
+    have := h.1 e he
+    simp only [entryB, Bool.and_eq_true, bne_iff_ne, ne_eq, List.any_eq_true, decide_eq_true_eq, Bool.not_false,
+      Bool.true_or, and_true] at this
+    obtain ⟨hb, p, hp, hparse⟩ := this
+    exact ⟨head_ne_bang_of hb, p, hp, _, hparse⟩
+  · intro p hp
+    obtain ⟨e, he, hparse⟩ := h.2 p hp
+    exact ⟨e, he, _, hparse⟩
+
+def mkCfg (u : Universe) : Cfg := { u := u, order := ownNames u, bothBad := .eq, installIfFixed := true, addedOrder := id }
+
+set_option maxRecDepth 100000 in
+/-- pins (not F09a) are needed: for the F09a universe everything else holds, `lockF` is a `LockList` of the
+resolution, but the dependency's entry lost the pin and the lock does not re-resolve -/
+theorem F09a_needed :
+    Ctx cfgF [lib2, app2] ∧ Side cfgF [lib2, app2] ∧ hypUniq cfgF [lib2, app2] ∧ LockList [lib2, app2] lockF ∧
+    ¬ PinnedLock [lib2, app2] lockF ∧ installOf (resolve cfgF lockF []) = none := by
+  refine ⟨⟨by decide, by decide, by decide, by decide⟩, side_of _ _ (by decide) (by decide) (by decide) (by decide) (by decide),
+    by decide, lockList_of_lockB (by decide), ?_, F09a_relock⟩
+  intro h
+  obtain ⟨_, p, hp, pin, hparse, hpin⟩ := h.sound "lib=2".toList (by decide)
+  simp only [List.mem_cons, List.not_mem_nil, or_false] at hp
+  have hp2 : parseConstraint "lib=2".toList = ⟨"lib".toList, "2".toList, .eq, []⟩ := by decide
+  rw [hp2] at hparse
+  rcases hp with rfl | rfl
+  · injection hparse with _ _ _ h4
+    subst h4
+    revert hpin; decide
+  · injection hparse with h1 _ _ _
+    revert h1; decide
+
+def e9b := pk 0 "b" "abc" "" []
+def cfg9e : Cfg := mkCfg [⟨[], "r-".toList, [e9b]⟩]
+
+set_option maxRecDepth 100000 in
+/-- parsable versions (not F09e) are needed: `[b]` resolves to b-abc, whose lock `b=abc` no resolver run accepts -/
+theorem F09e_needed :
+    installOf (resolve cfg9e ["b".toList] []) = some [e9b] ∧ lockOf ["b".toList] [e9b] = ["b=abc".toList] ∧
+    Ctx cfg9e [e9b] ∧ C02.IdsDistinct cfg9e.u ∧ hypNames [e9b] ∧ ¬ hypPv [e9b] ∧ hypDepPv [e9b] ∧ hypNoConf [e9b] ∧
+    hypUniq cfg9e [e9b] ∧ PinnedLock [e9b] ["b=abc".toList] ∧
+    installOf (resolve cfg9e ["b=abc".toList] []) = none := by
+  refine ⟨by decide, ?_, ⟨by decide, by decide, by decide, by decide⟩, by decide, by decide, by decide, by decide,
+    by decide, by decide, pinnedLock_of_lockB (by decide), by decide⟩
+  unfold lockOf archList
+  apply sortS_eq_of
+  · exact List.Perm.refl _
+  · decide
+
+def d9a : Pkg := { pk 0 "a" "1" "" ["b"] with origin := "o".toList }
+def d9b1 : Pkg := { pk 1 "b" "1" "" [] with origin := "x".toList }
+def d9b2 : Pkg := { pk 2 "b" "1" "" [] with origin := "o".toList, repo := "r2".toList }
+def cfg9d : Cfg := mkCfg [⟨[], "r-".toList, [d9a, d9b1]⟩, ⟨[], "r2".toList, [d9b2]⟩]
+
+set_option maxRecDepth 100000 in
+/-- unique (name, version) (not F09d) is needed — for the fixpoint, not for success: b-1 exists in two repositories;
+`[a]` takes the copy of a's origin, the lock `[a=1, b=1]` re-resolves to the other copy -/
+theorem F09d_needed :
+    installOf (resolve cfg9d ["a".toList] []) = some [d9b2, d9a] ∧
+    lockOf ["a".toList] [d9b2, d9a] = ["a=1".toList, "b=1".toList] ∧
+    Ctx cfg9d [d9b2, d9a] ∧ Side cfg9d [d9b2, d9a] ∧ ¬ hypUniq cfg9d [d9b2, d9a] ∧
+    PinnedLock [d9b2, d9a] ["a=1".toList, "b=1".toList] ∧
+    installOf (resolve cfg9d ["a=1".toList, "b=1".toList] []) = some [d9b1, d9a] := by
+  refine ⟨by decide, ?_, ⟨by decide, by decide, by decide, by decide⟩,
+    side_of _ _ (by decide) (by decide) (by decide) (by decide) (by decide), by decide,
+    pinnedLock_of_lockB (by decide), by decide⟩
+  unfold lockOf archList
+  apply sortS_eq_of
+  · exact List.Perm.swap _ _ []
+  · decide
+
+def c9a := pk 0 "a" "1" "" ["!b"]
+def c9b := pk 1 "b" "1" "" []
+def cfg9c : Cfg := mkCfg [⟨[], "r-".toList, [c9a, c9b]⟩]
+
+set_option maxRecDepth 100000 in
+/-- no violated conflict (not F09f) is needed: `[b, a]` resolves to {b, a} although a says `!b` (the resolver applies
+a conflict only to later picks; C02's `Valid` does not look at conflicts); in the lock's order the conflict strikes -/
+theorem F09f_conflict_needed :
+    installOf (resolve cfg9c ["b".toList, "a".toList] []) = some [c9b, c9a] ∧
+    lockOf ["b".toList, "a".toList] [c9b, c9a] = ["a=1".toList, "b=1".toList] ∧
+    Ctx cfg9c [c9b, c9a] ∧ C02.IdsDistinct cfg9c.u ∧ hypNames [c9b, c9a] ∧ hypPv [c9b, c9a] ∧ hypDepPv [c9b, c9a] ∧
+    ¬ hypNoConf [c9b, c9a] ∧ hypUniq cfg9c [c9b, c9a] ∧ PinnedLock [c9b, c9a] ["a=1".toList, "b=1".toList] ∧
+    installOf (resolve cfg9c ["a=1".toList, "b=1".toList] []) = none := by
+  refine ⟨by decide, ?_, ⟨by decide, by decide, by decide, by decide⟩, by decide, by decide, by decide, by decide,
+    by decide, by decide, pinnedLock_of_lockB (by decide), by decide⟩
+  unfold lockOf archList
+  apply sortS_eq_of
+  · exact List.Perm.swap _ _ []
+  · decide
+
+def j9z := pk 0 "z" "1" "" ["b==junk"]
+def j9b := pk 1 "b" "1" "" ["c"]
+def j9c := pk 2 "c" "1" "" []
+def cfg9j : Cfg := mkCfg [⟨[], "r-".toList, [j9z, j9b, j9c]⟩]
+def lock9j : List Text := ["b=1".toList, "c=1".toList, "z=1".toList]
+
+set_option maxRecDepth 100000 in
+/-- parsable dependency versions are needed, and NONE of the classes F09a–F09h applies (`relockClass = unlisted`):
+`==` is no operator, so `b==junk` reads as "b, any version" with the version text `junk` kept.  `[z]` resolves to the
+valid set {c, b, z}: when z's dependency is examined b is not selected yet and the candidate filter ignores the text.
+In the lock's order b is visited first and selected (it has a dependency of its own); z's dependency then takes the
+`selected` shortcut of `getPackageDependencies`, which parses the version text — error. -/
+theorem depAnyJunk_witness :
+    installOf (resolve cfg9j ["z".toList] []) = some [j9c, j9b, j9z] ∧ validB cfg9j.u ["z".toList] [j9c, j9b, j9z] = true ∧
+    relockClass cfg9j.u ["z".toList] [j9c, j9b, j9z] = "unlisted" ∧
+    Ctx cfg9j [j9c, j9b, j9z] ∧ C02.IdsDistinct cfg9j.u ∧ hypNames [j9c, j9b, j9z] ∧ hypPv [j9c, j9b, j9z] ∧
+    ¬ hypDepPv [j9c, j9b, j9z] ∧ hypNoConf [j9c, j9b, j9z] ∧ hypUniq cfg9j [j9c, j9b, j9z] ∧
+    PinnedLock [j9c, j9b, j9z] lock9j ∧ installOf (resolve cfg9j lock9j []) = none := by
+  refine ⟨by decide, by decide, by decide, ⟨by decide, by decide, by decide, by decide⟩, by decide, by decide, by decide,
+    by decide, by decide, by decide, pinnedLock_of_lockB (by decide), by decide⟩
+
 /-! ### the hypotheses of `relock_fixpoint_partial` are satisfiable by a non-trivial value -/
 
 def eA := pk 0 "a" "1.0-r0" "" ["b>=1.5", "c"]
@@ -1089,5 +1308,17 @@ example : installOf (resolve cfgE ["a".toList] []) = some SE ∧
     · exact ⟨"c=3-r1".toList, by decide, [], by decide⟩
     · exact ⟨"b=2.0-r0".toList, by decide, [], by decide⟩
     · exact ⟨"a=1.0-r0".toList, by decide, [], by decide⟩
+
+set_option maxRecDepth 100000 in
+/-- non-vacuity of `relock_succeeds_partial` / `relock_exact_partial`: two indexes, one of them pinned; the lock of
+`[app@edge, lib@edge]` carries both pins; all hypotheses hold and the lock re-resolves to the same set; the same for the
+unpinned `SE` above (version choice `b>=1.5`, shared dependency) -/
+example : Ctx cfgF [lib2, app2] ∧ Side cfgF [lib2, app2] ∧ hypUniq cfgF [lib2, app2] ∧
+    PinnedLock [lib2, app2] ["app=2@edge".toList, "lib=2@edge".toList] ∧
+    installOf (resolve cfgF ["app=2@edge".toList, "lib=2@edge".toList] []) = some [lib2, app2] ∧
+    Side cfgE SE ∧ PinnedLock SE lockE := by
+  refine ⟨⟨by decide, by decide, by decide, by decide⟩, side_of _ _ (by decide) (by decide) (by decide) (by decide) (by decide),
+    by decide, pinnedLock_of_lockB (by decide), by decide,
+    side_of _ _ (by decide) (by decide) (by decide) (by decide) (by decide), pinnedLock_of_lockB (by decide)⟩
 
 end Apko.C09
